@@ -124,16 +124,26 @@ def run_case(c):
     mix_g = sum(w * g for w, (_, _, g) in zip(rng("c40g", c["g"]).normal(size=12), fields[:12]))
     fields.append(("mixture", mix_f, mix_g))
     for name, f, g in fields:
-        img = Images(g.astype(np.complex64), sampling=samp)
+        variants = [(None, "eager")]
         if c["lazy"]:
-            img = img.ensure_lazy()
-        out = img.integrate_gradient()
-        out = out.compute() if c["lazy"] else out
-        got = np.asarray(out.array, dtype=np.float64)
-        tr += 1
-        d = got - f
-        spread = float(d.max() - d.min()) / float(f.max() - f.min())
-        worst = max(worst, spread / 1e-4)
-        if not spread <= 1e-4:
-            bad("gradient/not-recovered", "%s: integrate_gradient(grad f) - f varies by %.3g of the range of f" % (name, spread))
+            # every way of cutting the image into 1 or 2 dask blocks per axis (incl. uneven cuts), and 3 blocks along one axis
+            cx = [(n,)] + [(k, n - k) for k in (1, n // 2, n - 2) if 0 < k < n]
+            cy = [(m,)] + [(k, m - k) for k in (1, m // 2, m - 2) if 0 < k < m]
+            variants = [((a, b), "lazy chunks %r x %r" % (a, b)) for a in cx for b in cy] + [(((n,), (m // 3, m // 3, m - 2 * (m // 3))), "lazy 3 blocks along y")]
+            if name != "mixture" and not name.startswith("cos(1,") and not name.startswith("sin(0,1"):
+                variants = variants[:1] + variants[-1:]  # the full chunking alphabet for a few fields, the extremes for every field
+        for chunks, label in variants:
+            img = Images(g.astype(np.complex64), sampling=samp)
+            if chunks is not None:
+                img = img.ensure_lazy().rechunk(chunks)
+            out = img.integrate_gradient()
+            out = out.compute() if chunks is not None else out
+            got = np.asarray(out.array, dtype=np.float64)
+            tr += 1
+            d = got - f
+            spread = float(d.max() - d.min()) / float(f.max() - f.min())
+            worst = max(worst, spread / 1e-4)
+            if not spread <= 1e-4:
+                bad("gradient/not-recovered" + ("/lazy-base-chunks" if chunks is not None and (len(chunks[0]) > 1 or len(chunks[1]) > 1) else ""),
+                    "%s (%s): integrate_gradient(grad f) - f varies by %.3g of the range of f" % (name, label, spread))
     return {"viol": viol, "obs": "%d fields" % len(fields), "tr": tr, "ref": tr, "err": worst}
